@@ -119,17 +119,21 @@ theorem js_safe (f : QFlags) (s : Bytes) (hj : f.js = true) :
 example : (appendQuote { html := true, js := true } [0x3c, 0xE2, 0x80, 0xA8]).1 =
     [0x22, 0x5c, 0x75, 0x30, 0x30, 0x33, 0x63, 0x5c, 0x75, 0x32, 0x30, 0x32, 0x38, 0x22] := by decide +kernel
 
-/-- ReformatString without PreserveRawStrings (verbatim copy is excluded by the flag, the rest is re-quoted):
-the escape options hold for its output too. -/
-theorem reformat_html_safe_partial (f : QFlags) (src : Bytes) (hh : f.html = true) (hp : f.preserve = false) :
+/-- ReformatString, all three branches (verbatim copy is excluded by the flag, the PreserveRawStrings loop
+escapes, the rest is re-quoted): no raw `<`, `>`, `&` under EscapeForHTML. -/
+theorem reformat_html_safe (f : QFlags) (src : Bytes) (hh : f.html = true) :
     ∀ b ∈ (reformatString f src).1, b ≠ 0x3c ∧ b ≠ 0x3e ∧ b ≠ 0x26 := by
   intro b hb
-  simp only [reformatString, hh, hp] at hb
+  simp only [reformatString, hh] at hb
   split at hb
   · simp at hb
   · simp only [Bool.true_or, Bool.not_true, Bool.false_and, Bool.false_eq_true, ↓reduceIte] at hb
-    exact html_safe f _ hh b hb
+    split at hb
+    · have key := preserveLoop_noHTML f.js _ _ b hb
+      refine ⟨?_, ?_, ?_⟩ <;> (intro e; subst e; simp [isHTMLChar] at key)
+    · exact html_safe f _ hh b hb
 
+/-- ReformatString without PreserveRawStrings: no raw U+2028 / U+2029 under EscapeForJS. -/
 theorem reformat_js_safe_partial (f : QFlags) (src : Bytes) (hj : f.js = true) (hp : f.preserve = false) :
     ¬ [0xE2, 0x80, 0xA8] <:+: (reformatString f src).1 ∧ ¬ [0xE2, 0x80, 0xA9] <:+: (reformatString f src).1 := by
   simp only [reformatString, hj, hp]
@@ -138,12 +142,11 @@ theorem reformat_js_safe_partial (f : QFlags) (src : Bytes) (hj : f.js = true) (
   · simp only [Bool.or_true, Bool.not_true, Bool.false_and, Bool.false_eq_true, ↓reduceIte]
     exact js_safe f _ hj
 
-/-- Full statement for ReformatString (all three branches, incl. the PreserveRawStrings loop) — validated by
+/-- Full statement for EscapeForJS through ReformatString including the PreserveRawStrings loop — validated by
 the correspondence check and the path predicates of the harness, not yet proved. -/
-def reformat_safe_full : Prop :=
-  ∀ (f : QFlags) (src : Bytes),
-    (f.html = true → ∀ b ∈ (reformatString f src).1, b ≠ 0x3c ∧ b ≠ 0x3e ∧ b ≠ 0x26) ∧
-    (f.js = true → ¬ [0xE2, 0x80, 0xA8] <:+: (reformatString f src).1 ∧ ¬ [0xE2, 0x80, 0xA9] <:+: (reformatString f src).1)
+def reformat_js_safe_full : Prop :=
+  ∀ (f : QFlags) (src : Bytes), f.js = true →
+    ¬ [0xE2, 0x80, 0xA8] <:+: (reformatString f src).1 ∧ ¬ [0xE2, 0x80, 0xA9] <:+: (reformatString f src).1
 
 /-- Full statement: reformatting keeps the meaning of the literal. -/
 def reformat_meaning_full : Prop :=
